@@ -30,6 +30,10 @@ func (ser *Epoch) FindCidFromSlot(ctx context.Context, slot uint64) (cid.Cid, er
 // model of (*Epoch).FindCidFromSignature (sig-to-cid index); the real one is renamed.
 func (ser *Epoch) FindCidFromSignature(ctx context.Context, sig solana.Signature) (cid.Cid, error) {
 	st := verifC03Stores[ser]
+	if verifParam("faults", 0) == 1 && verifChoice("sig2cidReadFails", 2) == 1 {
+		st.idxFault = true // transient read failure of the sig-to-cid index (not an answer: not memoised)
+		return cid.Undef, verifC03ErrRead
+	}
 	for _, m := range st.g2c {
 		if m.sig == sig {
 			return st.answer(m.hit)
